@@ -702,6 +702,9 @@ func (e *SpecEnv) quant(x *EQuant) Val {
 				if !(strings.HasPrefix(c, "(select ") || strings.HasPrefix(c, "(pf$") || strings.HasPrefix(c, "(sprintf$") || strings.HasPrefix(c, "(uf$")) {
 					okTrig = false
 				}
+				if strings.Contains(c, "(ite ") || strings.Contains(c, "(and ") || strings.Contains(c, "(not ") || strings.Contains(c, "(or ") || strings.Contains(c, "(= ") {
+					okTrig = false // boolean structure is not allowed inside patterns
+				}
 			}
 			ts = append(ts, tv.C...)
 		}
